@@ -1030,6 +1030,22 @@ class KernelAnalysis:
                 for x, vv in zip(t.elts, value.elts):
                     self._assign_one(x, vv, st)
                 return
+            if isinstance(value, ast.Call) and (dotted_name(value.func) or '').split('.')[-1] in ('_broadcast_arrays', 'broadcast_arrays') \
+                    and len(value.args) == len(t.elts) and all(isinstance(x, ast.Name) for x in t.elts):
+                # UTPM-aware broadcasting keeps the coefficient axis: a whole series stays a whole series,
+                # a constant lifted with reshape((1,1)+shape) is a weight-0 value
+                for x, a in zip(t.elts, value.args):
+                    av = self.ev(a)
+                    if av.kind == 'fam' and av.whole is not None:
+                        g0 = self.gvars.get(av.whole)
+                        self._decl(x.id, 'local', g0.off if g0 else 0, av.length)
+                        self.temps.pop(x.id, None)
+                    elif isinstance(a, ast.Call) and isinstance(a.func, ast.Attribute) and a.func.attr == 'reshape':
+                        self._bind(x.id, Val.scalar(), st, a)
+                        self.lifted = getattr(self, 'lifted', set()) | {x.id}
+                    else:
+                        self._bind(x.id, Val.bot('operand of _broadcast_arrays not understood: ' + norm(a)[:40]), st, a)
+                return
             v = self.ev(value)
             for x in t.elts:
                 if isinstance(x, ast.Name):
@@ -1295,7 +1311,7 @@ class KernelAnalysis:
             if len(self.samples) < 40:
                 self.samples.append('%s: `%s`  target weight %s = rhs weight %s; reads %s'
                                     % (fn, norm(st)[:70], W, rhs_w, sorted(set('%s[%s]' % (r.arr, r.idx) for r in v.reads))[:6]))
-        self.iter_stores.append((g.name, list(v.reads)))
+        self.iter_stores.append((g.name, list(v.reads), e, isinstance(aug, ast.Mult)))
         self.store_log = getattr(self, 'store_log', [])
         self.store_log.append((g.name, e, self._all_ranges([e])))
         self._reads_checks(g, W, v, st, aug)
@@ -1350,7 +1366,7 @@ class KernelAnalysis:
             self.discharged += 1
             return True
         L = g.length
-        w = find_witness(lambda v: idx.eval(v) < 0 or idx.eval(v) > L.eval(v) - 1, rg, ['#D'])
+        w = find_witness(lambda v: idx.eval(v) < 0 or idx.eval(v) > L.eval(v) - 1, rg, ['#D']) if self._closed([idx, L], rg) else None
         if w is not None:
             val = idx.eval(w)
             self.issue('O1', 'VIOLATION', st, 'coefficient index `%s` of %s leaves [0, %s] (= %s for %s)%s: `%s`'
@@ -1373,7 +1389,7 @@ class KernelAnalysis:
                 continue
             L = g.length
             mn = -1 if (isstop and step == -1) else 0
-            w = find_witness(lambda v: b.eval(v) < mn or b.eval(v) > L.eval(v), rg, ['#D'])
+            w = find_witness(lambda v: b.eval(v) < mn or b.eval(v) > L.eval(v), rg, ['#D']) if self._closed([b, L], rg) else None
             if w is not None:
                 self.issue('O1', 'VIOLATION', node, 'slice bound `%s` on %s leaves [%d, %s] (= %s for %s): `%s`'
                            % (b, g.name, mn, L, b.eval(w), _fmt(w), norm(node)[:80]), w)
@@ -1419,6 +1435,15 @@ class KernelAnalysis:
         act = [it for it in items if it[0] in active]
         rest = [it for it in items if it[0] not in active]
         return Ranges(act + rest, self.ranges.symmin)
+
+    def _closed(self, exprs, rg):
+        """every variable of the expressions is a loop/position variable with a known range or
+        the truncation degree (free symbols such as a shift amount make a witness meaningless)"""
+        have = set(rg.vars()) | {'#D'}
+        for e in exprs:
+            if e is not None and not (e.vars() <= have):
+                return False
+        return True
 
     def _no_degree(self, idx, node, st):
         self.obligations += 1
@@ -1500,7 +1525,7 @@ class KernelAnalysis:
             if prove_le(wr, top, rg) or self._avail_conditional(r, ga, wr, W, rg):
                 self.discharged += 1
             else:
-                w = find_witness(lambda val: wr.eval(val) > top.eval(val), rg, ['#D'])
+                w = find_witness(lambda val: wr.eval(val) > top.eval(val), rg, ['#D']) if self._closed([wr, top], rg) else None
                 if w is not None:
                     self.issue('O2', 'VIOLATION', st, 'order-%s coefficient reads %s[%s] of weight %s > %s (%s; e.g. %s): `%s`'
                                % (W, r.arr, r.idx, wr, top, why, _fmt(w), norm(st)[:80]), w)
@@ -1588,6 +1613,16 @@ class KernelAnalysis:
                 return True, '%s[%s] is the weight-0 entry of an index-scaled array' % (r.arr, idx)
             conds.append((idx, ga.length, w, top, sc))
             desc.append('%s[%s]' % (r.arr, idx))
+        # the missing term may be supplied by a separate store into the same coefficient
+        # (`z[d] *= y[0]` is the c = d term of `z[d] += z[c]*y[d-c]`)
+        e_t = W - g.off
+        ext = [(r.arr, r.idx.subs(var, point)) for r in rs]
+        for (tname, reads, e2, is_mult) in self.iter_stores:
+            if tname != g.name or e2 != e_t:
+                continue
+            have = [(r.arr, r.idx) for r in reads] + ([(g.name, e_t)] if is_mult else [])
+            if all(x in have for x in ext):
+                return True, 'the term %s is supplied by a separate store into %s[%s]' % (ext, g.name, e_t)
         # not blocked for every order: is there an order for which the extra term is admissible?
         facs = [f.subs(var, point) for f in factors if var in f.vars()]
         sym = None
@@ -1626,7 +1661,7 @@ class KernelAnalysis:
 
     def _diag_supplied(self, arr, idx, g):
         """another store of this function reads arr[idx] twice (square) into the same target array"""
-        for (tname, reads) in self.iter_stores:
+        for (tname, reads, _e, _m) in self.iter_stores:
             if tname != g.name:
                 continue
             n = sum(1 for r in reads if r.arr == arr and r.idx == idx)
